@@ -401,6 +401,11 @@ def sortNats (l : List Nat) : List Nat := (l.mergeSort (fun a b => decide (a ≤
 def ledgerEq (a b : Ledger) : Bool :=
   (akeys a ++ akeys b).all (fun k => lget a k == lget b k)
 
+/-- the NFT ledger maps a token to its owner: compared by lookup, so that "owned by address 0" and
+    "no such token" differ (with `lget` both read 0 — found by `Props/CompareSound.lean`) -/
+def nftLedgerEq (a b : Ledger) : Bool :=
+  (akeys a ++ akeys b).all (fun k => alookup k a == alookup k b)
+
 def canonReg (r : Registry) : List (Nat × RoyaltyInfo) :=
   r.mergeSort (fun a b => decide (a.1 ≤ b.1))
 def canonContracts (r : List (Nat × ContractInfo)) : List (Nat × ContractInfo) :=
